@@ -780,6 +780,223 @@ mod layer2 {
     }
 }
 
+/// Layer 3: the per-remote state (real `RemoteMap` + `RemoteStateActor`, hook-built) on a paused
+/// clock with scripted lookup services.  Because time is virtual, "never answered" is decided on
+/// logical time: a request that is still unanswered after all services have finished and
+/// 15 logical minutes have passed (the runtime is idle by then) is a violation, not a timeout.
+mod layer3 {
+    use std::{
+        net::{Ipv4Addr, SocketAddr},
+        sync::{Arc, Mutex},
+        time::Duration,
+    };
+
+    use common::{Report, Rng};
+    use iroh::{
+        address_lookup::{AddressLookup, AddressLookupServices, EndpointData, EndpointInfo, Error as LookupError, Item},
+        verif_hooks::remote_map::RemoteMap,
+    };
+    use iroh_base::{EndpointAddr, EndpointId, SecretKey, TransportAddr};
+    use n0_future::boxed::BoxStream;
+    use serde_json::{Value, json};
+    use tokio::sync::oneshot;
+
+    /// What one scripted service yields, in order (each after `delay_ms` of virtual time).
+    #[derive(Clone, Debug, PartialEq)]
+    pub enum Out {
+        /// item for the right endpoint with one IP address
+        Addr,
+        /// item for the right endpoint without any transport address
+        EmptyItem,
+        /// item for a different endpoint (with an address)
+        OtherEndpoint,
+        /// per-service error
+        Error,
+    }
+
+    #[derive(Clone, Debug)]
+    pub struct Service {
+        pub declines: bool,
+        pub delay_ms: u64,
+        pub outs: Vec<Out>,
+        pub ended: Arc<Mutex<u64>>,
+    }
+
+    #[derive(Debug)]
+    struct ScriptedError;
+    impl std::fmt::Display for ScriptedError {
+        fn fmt(&self, f: &mut std::fmt::Formatter<'_>) -> std::fmt::Result {
+            write!(f, "scripted lookup error")
+        }
+    }
+    impl std::error::Error for ScriptedError {}
+
+    fn other() -> EndpointId {
+        SecretKey::from_bytes(&[0xEE; 32]).public()
+    }
+
+    impl AddressLookup for Service {
+        fn resolve(&self, id: EndpointId) -> Option<BoxStream<Result<Item, LookupError>>> {
+            if self.declines {
+                return None;
+            }
+            let me = self.clone();
+            Some(Box::pin(n0_future::stream::unfold(0usize, move |i| {
+                let me = me.clone();
+                async move {
+                    tokio::time::sleep(Duration::from_millis(me.delay_ms)).await;
+                    let Some(o) = me.outs.get(i) else {
+                        *me.ended.lock().unwrap() += 1;
+                        return None;
+                    };
+                    let ip = TransportAddr::Ip(SocketAddr::from((Ipv4Addr::new(10, 77, 0, 1), 9000 + i as u16)));
+                    let r = match o {
+                        Out::Addr => Ok(Item::new(EndpointInfo::from_parts(id, EndpointData::new(vec![ip])), "scripted", None)),
+                        Out::EmptyItem => Ok(Item::new(EndpointInfo::from_parts(id, EndpointData::new(Vec::<TransportAddr>::new())), "scripted", None)),
+                        Out::OtherEndpoint => Ok(Item::new(EndpointInfo::from_parts(other(), EndpointData::new(vec![ip])), "scripted", None)),
+                        Out::Error => Err(LookupError::from_err("scripted", ScriptedError)),
+                    };
+                    Some((r, i + 1))
+                }
+            })))
+        }
+    }
+
+    #[derive(Clone, Debug)]
+    pub struct Case {
+        pub services: Vec<(bool, u64, Vec<Out>)>,
+        /// (virtual ms to wait before the request, request carries an address)
+        pub requests: Vec<(u64, bool)>,
+    }
+
+    pub fn gen_case(rng: &mut Rng) -> Case {
+        let n = rng.below(4) as usize;
+        let services = (0..n)
+            .map(|_| {
+                let outs = (0..rng.below(4))
+                    .map(|_| match rng.below(10) {
+                        0..=2 => Out::Addr,
+                        3..=5 => Out::EmptyItem,
+                        6..=7 => Out::OtherEndpoint,
+                        _ => Out::Error,
+                    })
+                    .collect();
+                (rng.chance(1, 6), *rng.pick(&[0u64, 1, 20, 500, 5_000]), outs)
+            })
+            .collect();
+        let requests = (0..rng.range(1, 3)).map(|_| (*rng.pick(&[0u64, 0, 5, 700, 20_000]), rng.chance(1, 5))).collect();
+        Case { services, requests }
+    }
+
+    pub fn to_json(c: &Case) -> Value {
+        json!({"services": c.services.iter().map(|(d, ms, o)| json!({"declines": d, "delay_ms": ms, "outs": o.iter().map(|x| format!("{x:?}")).collect::<Vec<_>>()})).collect::<Vec<_>>(), "requests": c.requests})
+    }
+
+    pub fn from_json(v: &Value) -> Case {
+        let services = v["services"]
+            .as_array()
+            .unwrap()
+            .iter()
+            .map(|s| {
+                let outs = s["outs"]
+                    .as_array()
+                    .unwrap()
+                    .iter()
+                    .map(|o| match o.as_str().unwrap() {
+                        "Addr" => Out::Addr,
+                        "EmptyItem" => Out::EmptyItem,
+                        "OtherEndpoint" => Out::OtherEndpoint,
+                        _ => Out::Error,
+                    })
+                    .collect();
+                (s["declines"].as_bool().unwrap(), s["delay_ms"].as_u64().unwrap(), outs)
+            })
+            .collect();
+        let requests = v["requests"].as_array().unwrap().iter().map(|r| (r[0].as_u64().unwrap(), r[1].as_bool().unwrap())).collect();
+        Case { services, requests }
+    }
+
+    /// Runs one case on the current (paused-clock) runtime and judges it.
+    pub async fn run(rep: &Report, c: &Case, serial: u64) {
+        rep.eval();
+        let replay = json!({"layer3": to_json(c)});
+        let remote = SecretKey::from_bytes(&[(serial % 200) as u8 + 1; 32]).public();
+        let ended = Arc::new(Mutex::new(0u64));
+        let svcs = AddressLookupServices::default();
+        for (declines, delay_ms, outs) in &c.services {
+            svcs.add(Service { declines: *declines, delay_ms: *delay_ms, outs: outs.clone(), ended: ended.clone() });
+        }
+        let mut map = RemoteMap::new(svcs);
+        let any_addr_item = c.services.iter().any(|(d, _, o)| !*d && o.contains(&Out::Addr));
+        let mut rxs = Vec::new();
+        let mut any_req_addr = false;
+        for (i, (wait_ms, with_addr)) in c.requests.iter().enumerate() {
+            tokio::time::sleep(Duration::from_millis(*wait_ms)).await;
+            let (tx, rx) = oneshot::channel();
+            let addr = if *with_addr {
+                any_req_addr = true;
+                EndpointAddr::from_parts(remote, [TransportAddr::Ip(SocketAddr::from((Ipv4Addr::new(10, 88, 0, 1), 7000 + i as u16)))])
+            } else {
+                EndpointAddr::new(remote)
+            };
+            map.resolve_remote(addr, tx).await;
+            rxs.push((rx, *with_addr, any_req_addr));
+        }
+        // 15 logical minutes: every scripted stream (<= 4 outputs x <= 5 s) has long ended and the
+        // runtime is idle when this timer fires
+        let deadline = tokio::time::Instant::now() + Duration::from_secs(900);
+        let mut answers = Vec::new();
+        for (mut rx, with_addr, addr_known_by_then) in rxs {
+            let r = loop {
+                tokio::select! {
+                    biased;
+                    res = &mut rx => break Some(res),
+                    _ = map.cleanup() => {}
+                    _ = tokio::time::sleep_until(deadline) => break None,
+                }
+            };
+            answers.push((r, with_addr, addr_known_by_then));
+        }
+        let active = c.services.iter().filter(|(d, _, _)| !*d).count();
+        for (r, with_addr, addr_known) in answers {
+            let class = if any_addr_item || any_req_addr { "path-known-eventually" } else if active == 0 { "no-service-yields" } else { "lookup-finishes-without-path" };
+            match r {
+                None => {
+                    rep.violation(
+                        &format!("C22:actor:request-never-answered:{class}"),
+                        format!("resolve request (with_addr={with_addr}) unanswered 15 logical minutes after it was made; all {active} scripted service streams finite"),
+                        replay.clone(),
+                    );
+                }
+                Some(Err(_)) => {
+                    rep.violation("C22:actor:reply-channel-dropped", format!("resolve request (with_addr={with_addr}) dropped without an answer"), replay.clone());
+                }
+                Some(Ok(Ok(()))) => {
+                    rep.count(&format!("layer3.answered_ok.{class}"), 1);
+                    // a path may also become known through a *later* request that carries an address
+                    if !(any_addr_item || any_req_addr) {
+                        rep.violation("C22:actor:ok-without-any-known-path", "resolve answered Ok although no request carried an address and no service yielded one".to_string(), replay.clone());
+                    }
+                }
+                Some(Ok(Err(_))) => {
+                    rep.count(&format!("layer3.answered_err.{class}"), 1);
+                    if addr_known {
+                        rep.violation("C22:actor:err-although-path-known", "resolve answered with failure although a request had supplied an address before".to_string(), replay.clone());
+                    }
+                }
+            }
+        }
+        if c.services.iter().any(|(d, _, o)| !*d && !o.is_empty() && !o.contains(&Out::Addr) && !o.contains(&Out::Error)) && !any_req_addr {
+            rep.count("layer3.cases.lookup_ends_normally_without_adding_a_path", 1);
+        }
+        rep.nontrivial(format!("L3{:?}{:?}", c.services, c.requests).as_bytes());
+        drop(map);
+        for _ in 0..10 {
+            tokio::task::yield_now().await;
+        }
+    }
+}
+
 fn main() {
     let a = args();
     let rep = Report::new(
@@ -790,6 +1007,13 @@ fn main() {
     let relay_url: RelayUrl = "https://relay.example.".parse().unwrap();
     if let Some(p) = &a.replay {
         let v: Value = serde_json::from_str(&std::fs::read_to_string(p).unwrap()).unwrap();
+        if let Some(l3) = v["replay"].get("layer3") {
+            let c = layer3::from_json(l3);
+            let rt = tokio::runtime::Builder::new_current_thread().enable_time().start_paused(true).build().unwrap();
+            rt.block_on(layer3::run(&rep, &c, 0));
+            rep.finish();
+            return;
+        }
         if let Some(case) = v["replay"].get("case") {
             let c = layer2::case_from_json(case);
             let rt = tokio::runtime::Builder::new_multi_thread().worker_threads(2).enable_all().build().unwrap();
@@ -829,6 +1053,16 @@ fn main() {
             });
         }
     });
+    // ---- layer 3: per-remote actor on a paused clock --------------------------------------------
+    {
+        let rt = tokio::runtime::Builder::new_current_thread().enable_time().start_paused(true).build().unwrap();
+        let mut rng = Rng::derive(a.seed, "C22-layer3", 0);
+        for i in 0..a.pick(1_500u64, 40_000u64) {
+            let c = layer3::gen_case(&mut rng);
+            rt.block_on(layer3::run(&rep, &c, i));
+        }
+        rep.require("layer3.cases.lookup_ends_normally_without_adding_a_path", 50);
+    }
     // ---- layer 2 ---------------------------------------------------------------------------
     let workers = a.pick(6u64, 14u64);
     let cases = a.pick(600u64, 12_000u64);
